@@ -609,7 +609,9 @@ def wallet_history(job):
                     if rt is not None and rt.pushed:
                         stored.append(rt.txid)
                         x = txresult(rt, [(EXT[0], 0)])
-                        sent_objs[rt.txid] = (rt, x)
+                        # (not a candidate for the re-push step: its change pays an address of the co-wallet that this wallet
+                        # may derive only later - storing it again then discovers that output, which the recorded projection
+                        # of the transaction cannot say)
                         record({'op': 'adopt', 'tnum': txnum(table, rt.txid), 'x': x},
                                'transaction_import + send of the co-wallet\'s transaction tx%d' % txnum(table, rt.txid))
                 if follow < 0.45 or follow > 0.85:
